@@ -6,8 +6,11 @@ pub mod c03;
 pub mod c04;
 pub mod c06;
 pub mod c07;
+pub mod c09;
 pub mod c13;
 pub mod c14;
+pub mod c15;
+pub mod c20;
 
 /// field path with the concrete port / item index removed (stable signatures)
 pub fn c13_generic(path: &str) -> String {
@@ -15,7 +18,7 @@ pub fn c13_generic(path: &str) -> String {
 	p.split('.').filter(|c| !(c.len() == 2 && c.starts_with('P'))).map(|c| if c.starts_with("item[") { "item[k]" } else { c }).collect::<Vec<_>>().join(".")
 }
 
-pub const IDS: &[&str] = &["C01", "C02", "C03", "C04", "C06", "C07", "C13", "C14"];
+pub const IDS: &[&str] = &["C01", "C02", "C03", "C04", "C06", "C07", "C09", "C13", "C14", "C15", "C20"];
 
 pub fn get(id: &str) -> Option<Box<dyn Monitor>> {
 	Some(match id {
@@ -25,7 +28,10 @@ pub fn get(id: &str) -> Option<Box<dyn Monitor>> {
 		"C04" => Box::new(c04::C04::new()),
 		"C06" => Box::new(c06::C06::new()),
 		"C07" => Box::new(c07::C07::new()),
+		"C09" => Box::new(c09::C09),
 		"C13" => Box::new(c13::C13::new()),
+		"C15" => Box::new(c15::C15),
+		"C20" => Box::new(c20::C20),
 		"C14" => Box::new(c14::C14::new()),
 		_ => return None,
 	})
